@@ -47,10 +47,15 @@ ResendLine(k) ==   \* "Resend: <k>\n"
   <<82, 101, 115, 101, 110, 100, 58, 32>> \o digits(k) \o <<10>>
 
 \* ---------------------------------------------------------------- firmware (Marlin-style)
+\* an un-numbered line (a priority command, e.g. the restore commands of resume()) is executed and acknowledged
+\* without touching the line counter
+Unnumbered(t) == t # <<>> /\ t[1] # 78
 FwStep(f, t, bad) ==
   LET fr == Frame(t)
       good == ~bad /\ fr.ok /\ fr.cs = fr.sum IN
-  IF good /\ IsM110(fr.cmd)
+  IF ~bad /\ Unnumbered(t)
+    THEN [f EXCEPT !.owed = Append(f.owed, OkLine), !.executed = Append(f.executed, t)]
+  ELSE IF good /\ IsM110(fr.cmd)
     THEN [f EXCEPT !.expected = IntOf(SubSeq(fr.cmd, 7, Len(fr.cmd))) + 1, !.owed = Append(f.owed, OkLine)]
   ELSE IF good /\ fr.n = f.expected
     THEN [f EXCEPT !.expected = f.expected + 1, !.accepted = Append(f.accepted, fr.cmd), !.owed = Append(f.owed, OkLine)]
@@ -58,7 +63,10 @@ FwStep(f, t, bad) ==
                  !.rejected = Append(f.rejected, [at |-> f.ntx + 1, want |-> f.expected])]
 
 Holds(c, T, e) ==
-  CASE c = "C15_Frame" -> e.k = "tx" => (Frame(e.text).ok /\ Frame(e.text).cs = Frame(e.text).sum)
+  \* every transmission is a framed, checksummed line -- except un-numbered priority commands, which are never job lines
+  CASE c = "C15_Frame" -> e.k = "tx" =>
+         \/ (Frame(e.text).ok /\ Frame(e.text).cs = Frame(e.text).sum)
+         \/ (Unnumbered(e.text) /\ \A i \in DOMAIN T.job : T.job[i] \o <<10>> # e.text)
     \* a job transmission carries exactly the job line its number stands for (comments stripped)
     [] c = "C15_Text"  -> (e.k = "tx" /\ Frame(e.text).ok /\ Frame(e.text).n >= 0) =>
                              (Frame(e.text).n < Len(T.job) /\ Frame(e.text).cmd = T.job[Frame(e.text).n + 1])
@@ -104,7 +112,7 @@ NextFw(e) ==
 
 Init ==
   /\ tid \in 1..Len(Traces) /\ l = 1
-  /\ fw = [expected |-> 1, accepted |-> <<>>, owed |-> <<>>, rejected |-> <<>>, ntx |-> 0, noks |-> 0, ns |-> <<>>,
+  /\ fw = [expected |-> 1, accepted |-> <<>>, executed |-> <<>>, owed |-> <<>>, rejected |-> <<>>, ntx |-> 0, noks |-> 0, ns |-> <<>>,
            piped |-> FALSE, m110bad |-> FALSE]
   /\ cnt = [c \in Clauses |-> 0]
 Step ==
